@@ -99,6 +99,9 @@ func (b *Body) keysNeverReordered(l *Ledger) {
 					if f != nil && f.Pkg == b.Lib {
 						continue // a library function: its own writes are judged where they are
 					}
+					if f != nil && readOnlyStd[stdName(f)] {
+						continue // reads the slice, never writes it
+					}
 					n++
 					sites++
 					l.add("R-KEYS", "v5", fmt.Sprintf("%s: key list write #%d does not move a member", fname(fn), n), b.posOf(x), Violated, "the key list (or a piece of it) is handed to "+calleeLabel(cc)+": a function outside the library that receives the slice can reorder it in place — sorting the members a merge appended moves surviving members as soon as the window is off by one", true)
@@ -107,4 +110,11 @@ func (b *Body) keysNeverReordered(l *Ledger) {
 		})
 	}
 	l.add("R-KEYS", "v5", "key lists are grown, spliced or replaced by the decoder's — never reordered", "", Discharged, fmt.Sprintf("%d in-place write(s) / outside call(s) on key lists examined one by one", sites), true)
+}
+
+// standard-library functions that only read a slice they are given
+var readOnlyStd = map[string]bool{
+	"slices.Contains": true, "slices.Index": true, "slices.Equal": true, "slices.Clone": true, "slices.IndexFunc": true, "slices.ContainsFunc": true,
+	"strings.Join": true, "sort.SearchStrings": true, "sort.StringsAreSorted": true,
+	"fmt.Sprintf": true, "fmt.Errorf": true, "fmt.Sprint": true, "fmt.Sprintln": true,
 }
